@@ -886,7 +886,7 @@ func (c *moduleConfig) toSysContext() (sysCtx *internalsys.Context, err error) {
 		}
 	}
 
-	return internalsys.NewContext(
+	sysCtx, err = internalsys.NewContext(
 		math.MaxUint32,
 		c.args,
 		environ,
@@ -900,4 +900,11 @@ func (c *moduleConfig) toSysContext() (sysCtx *internalsys.Context, err error) {
 		fs, guestPaths,
 		listeners,
 	)
+	if err != nil {
+		// Nobody will close what was bound for a context that does not exist.
+		for _, l := range listeners {
+			_ = l.Close()
+		}
+	}
+	return
 }
